@@ -295,6 +295,8 @@ func run(p *kernel.Plan) (res *kernel.Result) {
 	var avgBase *head
 	nextAvg := 0
 	fired := [3]int{}
+	staleRun := [3]int{} // consecutive samples whose value cannot stem from a window closing at them
+	eventFree := 0       // consecutive samples since the last backward step / zero / first sample after zeros
 	for now := time.Since(src.t0); now < dur; now = time.Since(src.t0) {
 		// advance to the next second boundary or Average() call, whichever is first
 		next := now + time.Second
@@ -470,6 +472,34 @@ func run(p *kernel.Plan) (res *kernel.Result) {
 				}
 				if ei == firstNZ && v == 0 {
 					okFired = true
+				}
+			}
+			// gap-free sampling of a counter that went backwards earlier: however
+			// the window is anchored (time or sample count, re-anchored or not at
+			// the backward step), it closes once in any run of w/10s samples that
+			// holds no backward step, and closing at a sample means reporting the
+			// increase against the observation exactly one window earlier
+			n := len(samplerObs) - 1
+			event := o.val == 0 || (n >= 1 && (int64(o.val-samplerObs[n-1].val) < 0 || samplerObs[n-1].val == 0))
+			if i == 0 {
+				eventFree++
+				if event || !regular {
+					eventFree = 0
+				}
+			}
+			switch {
+			case !regular || event || n-per < firstNZ:
+				staleRun[i] = 0
+			case near(v, rate(samplerObs[n-per].val, o.val, w.w, scale)):
+				staleRun[i] = 0
+			case okFired && !okStale:
+				staleRun[i] = 0 // it visibly closed at this sample, against an older observation
+			default:
+				staleRun[i]++
+				// (a window re-anchored at or right after such a step closes one full
+				// window later: only runs a whole window away from the step count)
+				if staleRun[i] >= per && eventFree >= 2*per && okStale {
+					return fail(fmt.Sprintf("C20/rate-overdue:%ds", int(w.w/time.Second)), "window %v after observation (%v, %d): still reports %v; in the last %d gap-free samples, none a backward step, it never reported the increase against the observation one window earlier (now %v)", w.w, o.at, o.val, v, per, rate(samplerObs[n-per].val, o.val, w.w, scale))
 				}
 			}
 			if !okStale && !okFired {
